@@ -8,10 +8,10 @@ package gabi
 // proof and the statement it reports holds for the signed attribute value.
 
 import (
-	"sort"
 	"encoding/json"
 	"fmt"
 	gobig "math/big"
+	"sort"
 	"testing"
 
 	"github.com/privacybydesign/gabi/big"
